@@ -415,6 +415,7 @@ def check_order_ids(ctx: Ctx) -> None:
     from ..terms import diff_const
 
     ws = ctx.cg.writers_of("Market", "_next_order_id")
+    ctx.require(bool(ws), "Market._next_order_id (the id counter the rule is stated in terms of) is not written anywhere: renamed or removed")
     for w in ws:
         ok = caller_ok(ctx, w.func, lambda g: g.qualname in ("Market.__init__", "Market._add_order"))
         ctx.check(ok, w.func, w.node, "writer of the market's order-id counter", "Market.__init__ (start) | Market._add_order (advance)", w.func.qualname + (": setting the counter again lets new orders reuse ids of resting ones" if not ok else ""))
